@@ -1,8 +1,17 @@
 #!/bin/bash
-# tools/test_mutant.sh <patch.diff> <prop> [<prop>...] : applies the patch to /repo, runs the checks, reverts.
-patch=$1; shift
+# tools/test_mutant.sh <patch.diff | worktree dir> <prop> [<prop>...]
+# worktree dir: runs the checks with KYUPY_REPO=<dir> (nothing in /repo changes: safe while other jobs read /repo).
+# patch file : applies the patch to /repo, runs the checks, reverts.
+src=$1; shift
+if [ -d "$src" ]; then
+  for p in "$@"; do
+    out=$(cd /verif && KYUPY_REPO=$src ./check $p 2>&1 | grep -v "^#" | tail -3 | cut -c1-220)
+    echo "== $p: $out"
+  done
+  exit 0
+fi
 git -C /repo status --short | grep -q . && { echo "/repo not clean"; exit 2; }
-git -C /repo apply "$patch" || { echo "patch does not apply"; exit 2; }
+git -C /repo apply "$src" || { echo "patch does not apply"; exit 2; }
 for p in "$@"; do
   out=$(cd /verif && ./check $p 2>&1 | grep -v "^#" | tail -3 | cut -c1-220)
   echo "== $p: $out"
